@@ -54,6 +54,21 @@ def passed_value(P, call, kw):
     return None, 'absent'
 
 
+def _implied(guards):
+    """The guards of a call, plus what they imply about the condition of a conditional expression they compare with a constant:
+    `(1 if issorted else direction(values)) == 0` can only hold when `issorted` is false."""
+    out = list(guards)
+    for a, pol in guards:
+        if a[0] == 'cmp' and a[1] == '==' and pol is True:
+            for x, c in ((a[2], a[3]), (a[3], a[2])):
+                if x[0] == 'ifexp' and c[0] == 'const':
+                    if x[2][0] == 'const' and x[2] != c:
+                        out.append((x[1], False))
+                    if x[3][0] == 'const' and x[3] != c:
+                        out.append((x[1], True))
+    return out
+
+
 def instances(ctx):
     return [e for e in load_table() if ctx.prop in e['props']]
 
@@ -97,9 +112,10 @@ def rule_forwarding(ctx, rid):
                                  % (ent['param'], q.split('.')[-1], ent['callee']), node=e.node)
                     break
                 # a constant that merely spells out what the guards of the call have established about the option (`if issorted: ... else: f(issorted=False)`)
-                if v in (T.CONST_TRUE, T.CONST_FALSE) and any(a == P_(ent['param']) and pol is (v == T.CONST_TRUE) for a, pol in e.guards):
+                known = _implied(e.guards)
+                if v in (T.CONST_TRUE, T.CONST_FALSE) and any(a == P_(ent['param']) and pol is (v == T.CONST_TRUE) for a, pol in known):
                     continue
-                if v == T.CONST_NONE and any(a == T.mkcmp('is', P_(ent['param']), T.CONST_NONE) and pol is True for a, pol in e.guards):
+                if v == T.CONST_NONE and any(a == T.mkcmp('is', P_(ent['param']), T.CONST_NONE) and pol is True for a, pol in known):
                     continue
                 if ent.get('level') == 'derived':
                     if not T.contains(v, P_(ent['param'])):
